@@ -961,6 +961,9 @@ class Table(Vector):
 			# Raise mismatched row counts
 			if len(self) != len(other):
 				raise ValueError(f"Row count mismatch: {len(self)} != {len(other)}")
+			if len(self) == 0:
+				# (no rows to pair: every column against the empty sequence - the same table of empty boolean columns as t == 1)
+				return Vector(tuple(op(x, other) for x in self.cols()))
 			# (a None entry is a missing value: every comparison in its row is False, as in column == sequence)
 			n_cols = len(self.cols())
 			return Vector(tuple(op(x, y) if y is not None else Vector([False] * n_cols)
